@@ -24,7 +24,7 @@ def owner_fn(prog, fn):
     return fn
 
 
-@rule('G3', props=['C18', 'C11'], floor=6, configs=('all', 'default'))
+@rule('G3', props=['C18', 'C11'], floor=3, configs=('all', 'default'))
 def g3_world_construction(prog):
     """A World value is only ever built (a) in a function where the aggregate is dominated by a call of
     the registry's assert_no_duplicates, or (b) in Clone::clone of World (copy of a validated
@@ -192,47 +192,55 @@ def g4_batch_construction(prog):
                 if f is None:
                     r.viol('G4', 'length/missing-' + name, impl_loc(imp), name + ' not found')
                     continue
-                bf, tt = boolfn.bool_table(prog, f)
-                r.inst('Length::%s truth table over %d atoms' % (name, len(bf.atoms)))
-                if tt is None:
+                E = pathsem.analyse(prog, f)
+                rets = [p for p in E.paths if p.ended == 'return']
+                r.inst('Length::%s: %d returning paths' % (name, len(rets)))
+                if E.truncated or not rets or any(p.ret not in (pathsem.TRUE, pathsem.FALSE) for p in rets):
                     r.viol('G4', 'length/%s/not-extractable' % name, f.loc(), 'cannot tabulate the boolean result of %s' % name)
                     continue
-                keys, table = tt
-                tails = [k for k in keys if bf.atoms[k].kind == 'call' and bf.atoms[k].term['f']['name'] == 'check_len_against' and ty_eq(bf.atoms[k].term['f']['args'][0], tail)]
-                cmps = [k for k in keys if bf.atoms[k].kind == 'cmp']
-                others = [k for k in keys if k not in tails and k not in cmps]
-                if len(tails) != 1:
-                    r.viol('G4', 'length/%s/tail' % name, f.loc(), '%s must consult the tail columns exactly once' % name)
-                    continue
-                ti = keys.index(tails[0])
-                if name == 'check_len':
-                    want = lambda vals: vals[ti]
-                    if cmps or others:
-                        # extra atoms must not be able to make the result true when the tail says false
-                        pass
-                    # the tail is checked against this column's own length
-                    t = bf.atoms[tails[0]].term
-                    a = op_local(t['args'][1])
-                    d = single_def(f.body, access_of_local(f.body, a).root) if a is not None else None
-                    if not (d and d[0] == 'call' and d[2]['f']['name'] in ('component_len', 'len')):
-                        r.viol('G4', 'length/check_len/reference-length', f.loc(t['ln']), 'tail columns are not compared against this column\'s length')
-                else:
-                    if len(cmps) != 1:
-                        r.viol('G4', 'length/check_len_against/own-column', f.loc(), 'check_len_against must compare its own column length with len')
-                        continue
-                    ci = keys.index(cmps[0])
-                    rv = bf.atoms[cmps[0]].term
-                    if rv['op'] not in ('Eq', 'Ne'):
-                        r.viol('G4', 'length/check_len_against/not-eq', f.loc(), 'own column length must be compared for equality')
-                    if rv['op'] == 'Ne':
-                        want = lambda vals: vals[ti] and not vals[ci]
+                S = pathsem.strip_refs
+                me = ('p', 1, f.body.local_name(1) or 'self')
+                lenp = ('p', 2, f.body.local_name(2) or 'len') if name == 'check_len_against' else None
+
+                def own_len(t):
+                    t = S(t)
+                    if not (isinstance(t, tuple) and t[0] == 'call'):
+                        return False
+                    nm = t[1].rsplit('::', 1)[-1]
+                    if nm == 'component_len' and S(t[2][0]) in (me, ('d', me)):
+                        return True
+                    return nm == 'len' and pathsem.is_field_of(S(t[2][0]), 'tuple', 0) and pathsem.mentions(t[2][0], lambda u: u == me)
+
+                def tail_call(a_):
+                    """atom is check_len_against(&self.1, X) -> X"""
+                    if isinstance(a_, tuple) and a_[0] == 'call' and a_[1].endswith('::check_len_against') and pathsem.is_field_of(S(a_[2][0]), 'tuple', 1) and pathsem.mentions(a_[2][0], lambda u: u == me):
+                        return S(a_[2][1])
+                    return None
+                rep = set()
+
+                def once(k, msg):
+                    if k not in rep:
+                        rep.add(k)
+                        r.viol('G4', 'length/%s/%s' % (name, k), f.loc(), msg)
+                for p in rets:
+                    tails = [(tail_call(a_), v) for a_, v in p.conds if tail_call(a_) is not None]
+                    owns = [(a_, v) for a_, v in p.conds if a_[0] == 'bin' and a_[1] in ('Eq', 'Lt') and ((own_len(a_[2]) and S(a_[3]) == lenp) or (own_len(a_[3]) and S(a_[2]) == lenp))] if lenp else []
+                    if p.ret == pathsem.TRUE:
+                        if not any(v is True for x, v in tails):
+                            once('tail', '%s must consult the tail columns exactly once: a path returns true without the tail columns agreeing' % name)
+                        elif name == 'check_len' and not any(v is True and own_len(x) for x, v in tails):
+                            once('reference-length', 'tail columns are not compared against this column\'s length')
+                        elif name == 'check_len_against' and not any(v is True and (x == lenp or own_len(x)) for x, v in tails):
+                            once('reference-length', 'tail columns are not compared against the requested length')
+                        if name == 'check_len_against':
+                            if not owns:
+                                once('own-column', 'check_len_against must compare its own column length with len')
+                            elif not any(a_[1] == 'Eq' and v is True for a_, v in owns):
+                                once('not-eq' if any(a_[1] == 'Lt' for a_, v in owns) else 'wrong-result', 'own column length must be found equal to len on every path returning true')
                     else:
-                        want = lambda vals: vals[ti] and vals[ci]
-                for vals, res in table.items():
-                    if res != want(vals):
-                        r.viol('G4', 'length/%s/wrong-result' % name, f.loc(),
-                               '%s returns %s when %s — it must be true exactly when this column\'s length matches and the tail agrees' % (name, res, dict(zip([bf.atoms[k].desc[:40] for k in keys], vals))))
-                        break
+                        failing = [1 for x, v in tails if v is False] + [1 for a_, v in owns if a_[1] == 'Eq' and v is False]
+                        if not failing:
+                            once('wrong-result', '%s returns false although this column\'s length matches and the tail agrees' % name)
     # privacy of fields
     for path in ('entities::Batch', 'world::World', 'archetype::Archetype', 'entity::allocator::Allocator'):
         a = prog.adts.get(path)
